@@ -5,6 +5,7 @@ import (
 	"strings"
 	"testing"
 
+	"github.com/dolthub/go-mysql-server/vh/internal/kf"
 	"github.com/dolthub/go-mysql-server/vh/internal/stats"
 	"pgregory.net/rapid"
 )
@@ -173,10 +174,26 @@ func region(c tcase, route string) string {
 	case overlongSpecial(c) && route == "ignore":
 		return kfIgnoreOverlong
 	}
-	if _, out := malformedTailOutOfRange(c); out && route == "ignore" {
+	if n, out := malformedTailOutOfRange(c); out && route == "ignore" {
+		if isUnsignedInt(c) && n.Sign() < 0 {
+			return firstListed(kfIgnoreMalformed, kfUnsignedWrap)
+		}
 		return kfIgnoreMalformed
 	}
 	return ""
+}
+
+// firstListed: for an input on which two findings produce the same wrong outcome ('-5x' under
+// INSERT IGNORE into TINYINT UNSIGNED is stored as 251 both by the early return of ConvertRound
+// and, once that is repaired, by the unsigned wrap of Convert) the violation is attributed to
+// whichever of them is still listed; the first one if none is.
+func firstListed(ids ...string) string {
+	for _, id := range ids {
+		if kf.Listed(id) {
+			return id
+		}
+	}
+	return ids[0]
 }
 
 func isZeroNorm(n string) bool {
@@ -261,10 +278,15 @@ func signature(c tcase, o outcome, why string) string {
 		if got.Cmp(n) == 0 {
 			return kfIgnoreMalformed // the out-of-range prefix itself (MEDIUMINT lives in an int32)
 		}
-		for _, k := range []uint{8, 16, 32, 64} {
+		for _, k := range []uint{8, 16, 24, 32, 64} {
 			m := new(big.Int).Mod(n, pow2(k))
 			if m.Cmp(got) == 0 || new(big.Int).Sub(m, pow2(k)).Cmp(got) == 0 {
-				return kfIgnoreMalformed // wrapped to the Go type
+				if isUnsignedInt(c) && n.Sign() < 0 {
+					return firstListed(kfIgnoreMalformed, kfUnsignedWrap)
+				}
+				if k != 24 {
+					return kfIgnoreMalformed // wrapped to the Go type
+				}
 			}
 		}
 
